@@ -866,18 +866,22 @@ where
     }
 }
 
+// A `Node` is a shared handle (`Arc`) to its key, value and adjacency lists:
+// every clone, on any thread, can hand out `&K`, `&N` and clones of `E`.
+// Like `Arc<T>`, it may therefore only be `Send` or `Sync` when the payload
+// types are both `Send` and `Sync`.
 unsafe impl<K, N, E> Send for Node<K, N, E>
 where
-    K: Clone + Hash + Display + PartialEq + Eq + Send,
-    N: Clone + Send,
-    E: Clone + Send,
+    K: Clone + Hash + Display + PartialEq + Eq + Send + Sync,
+    N: Clone + Send + Sync,
+    E: Clone + Send + Sync,
 {
 }
 
 unsafe impl<K, N, E> Sync for Node<K, N, E>
 where
-    K: Clone + Hash + Display + PartialEq + Eq + Sync,
-    N: Clone + Sync,
-    E: Clone + Sync,
+    K: Clone + Hash + Display + PartialEq + Eq + Send + Sync,
+    N: Clone + Send + Sync,
+    E: Clone + Send + Sync,
 {
 }
